@@ -4,6 +4,7 @@
 -/
 import ChialispModel.Drv.Base
 import ChialispModel.Drv.Conv
+import ChialispModel.Drv.Scope
 import ChialispModel.Drv.Core2Drv
 import ChialispModel.Drv.ReplLine
 import ChialispModel.Drv.ClassicEnv
@@ -33,6 +34,7 @@ def main (args : List String) : IO UInt32 := do
   | ["classicenv"] => Drv.ClassicEnv.run; return 0
   | ["replline"] => Drv.ReplLine.run; return 0
   | ["core2"] => Drv.Core2Drv.run; return 0
+  | ["scope"] => Drv.Scope.run; return 0
   | ["conv"] => Drv.Conv.run; return 0
   | ["src"] => Drv.Src.run; return 0
   | ["entry"] => Drv.Entry.run; return 0
